@@ -10,41 +10,59 @@ import Gama.Lemmas.EnvCfg
 namespace Gama.C04
 open Gama Gama.MTF
 
-def HOp.Valid : HOp → Prop
-  | .q op => op.Valid
+/-- a call is valid relative to the input the object holds WHEN it is made: query indices are unknowns of that
+    system (`1 ≤ i ≤ n`), an input handed over has a 1-based ordering on its own unknowns -/
+def HOp.Valid (cur : EnvInput) : HOp → Prop
+  | .q op => op.Valid cur.n
   | .resetNew inp' => inp'.Pos
+
+/-- the input held after the call -/
+def HOp.next (cur : EnvInput) : HOp → EnvInput
+  | .q _ => cur
+  | .resetNew inp' => inp'
+
+/-- validity of a history that starts with input `cur` (round 4: replaces `∀ o ∈ ops, o.Valid`, which could not
+    bound the indices of a query by the size of the input current at that point) -/
+def HValid (cur : EnvInput) : List HOp → Prop
+  | [] => True
+  | o :: os => o.Valid cur ∧ HValid (o.next cur) os
+
+instance (cur : EnvInput) (op : Op) : Decidable ((HOp.q op).Valid cur) :=
+  inferInstanceAs (Decidable (op.Valid cur.n))
+
+theorem hstep_inp (h : HState) (o : HOp) : (hstep h o).1.inp = o.next h.inp := by
+  cases o <;> rfl
 
 /-- invariant of the multi-input machine: the single-input invariant for the CURRENT input -/
 def HInv (h : HState) : Prop := h.inp.Pos ∧ Inv h.inp h.s ∧ MD h.inp h.s
 
 /-- a new object given `inp`, regularisation list `m` configured -/
-def hinit (inp : EnvInput) (m : Option (List Nat)) : HState := ⟨inp, init m⟩
+def hinit (inp : EnvInput) (m : Option (List Nat)) : HState := { inp := inp, s := init m }
 
 theorem hinv_init {inp : EnvInput} (hp : inp.Pos) (m : Option (List Nat)) : HInv (hinit inp m) :=
   ⟨hp, inv_init inp m, fun hd => by simp [hinit, init, setStage] at hd⟩
 
-theorem hstep_inv {h : HState} (hi : HInv h) (o : HOp) (hv : o.Valid) : HInv (hstep h o).1 := by
+theorem hstep_inv {h : HState} (hi : HInv h) (o : HOp) (hv : o.Valid h.inp) : HInv (hstep h o).1 := by
   cases o with
   | q op => exact ⟨hi.1, (step_spec hi.2.1 hi.1 op hv).1, (step_cfg h.inp h.s op hi.2.2).1⟩
   | resetNew inp' => exact ⟨hv, inv_reset hi.2.1, (reset_md inp' h.s).1⟩
 
-theorem hrun_inv {h : HState} (hi : HInv h) {ops : List HOp} (hops : ∀ o ∈ ops, o.Valid) :
+theorem hrun_inv {h : HState} (hi : HInv h) {ops : List HOp} (hops : HValid h.inp ops) :
     HInv (hrun h ops) := by
   induction ops generalizing h with
   | nil => exact hi
   | cons o ops ih =>
-    exact ih (hstep_inv hi o (hops o (List.mem_cons_self ..)))
-      (fun o' ho' => hops o' (List.mem_cons_of_mem _ ho'))
+    exact ih (hstep_inv hi o hops.1) ((hstep_inp h o).symm ▸ hops.2)
 
-theorem hstep_eq_fresh {h : HState} (hi : HInv h) (op : Op) (hv : op.Valid) :
+theorem hstep_eq_fresh {h : HState} (hi : HInv h) (op : Op) (hv : op.Valid h.inp.n) :
     (hstep h (.q op)).2 = fresh h.inp h.s.minx op :=
   step_eq_fresh hi.2.1 hi.1 op hv
 
-theorem hstep_spec {h : HState} (hi : HInv h) (op : Op) (hv : op.Valid) :
+theorem hstep_spec {h : HState} (hi : HInv h) (op : Op) (hv : op.Valid h.inp.n) :
     (hstep h (.q op)).2 = spec h.inp (eff h.inp h.s.minx) op :=
   (step_spec hi.2.1 hi.1 op hv).2
 
-theorem fresh_eq_spec (inp : EnvInput) (hp : inp.Pos) (m : Option (List Nat)) (op : Op) (hv : op.Valid) :
+theorem fresh_eq_spec (inp : EnvInput) (hp : inp.Pos) (m : Option (List Nat)) (op : Op) (hv : op.Valid inp.n) :
     fresh inp m op = spec inp (eff inp m) op := by
   unfold fresh
   rw [(step_spec (inv_init inp m) hp op hv).2]
@@ -52,7 +70,7 @@ theorem fresh_eq_spec (inp : EnvInput) (hp : inp.Pos) (m : Option (List Nat)) (o
 
 /-- the answer is that of a brand-new object with the CALLER's configuration `cfg` (`none` = all parameters,
     or the list given to `min_x(n, list)`) — whatever `solve_x` materialised in between -/
-theorem hstep_eq_fresh_cfg {h : HState} (hi : HInv h) (op : Op) (hv : op.Valid) :
+theorem hstep_eq_fresh_cfg {h : HState} (hi : HInv h) (op : Op) (hv : op.Valid h.inp.n) :
     (hstep h (.q op)).2 = fresh h.inp (cfg h.s) op := by
   rw [hstep_spec hi op hv, fresh_eq_spec h.inp hi.1 _ op hv, eff_cfg hi.2.2]
 
@@ -62,13 +80,13 @@ def lastCfg (c : Option (List Nat)) : List HOp → Option (List Nat)
   | .q op :: os => lastCfg (nextCfg c op) os
   | .resetNew _ :: os => lastCfg c os
 
-theorem hrun_cfg {h : HState} (hi : HInv h) {ops : List HOp} (hops : ∀ o ∈ ops, o.Valid) :
+theorem hrun_cfg {h : HState} (hi : HInv h) {ops : List HOp} (hops : HValid h.inp ops) :
     cfg (hrun h ops).s = lastCfg (cfg h.s) ops := by
   induction ops generalizing h with
   | nil => rfl
   | cons o ops ih =>
-    have hi' := hstep_inv hi o (hops o (List.mem_cons_self ..))
-    have := ih hi' (fun o' ho' => hops o' (List.mem_cons_of_mem _ ho'))
+    have hi' := hstep_inv hi o hops.1
+    have := ih hi' ((hstep_inp h o).symm ▸ hops.2)
     show cfg (hrun (hstep h o).1 ops).s = _
     rw [this]
     cases o with
@@ -82,18 +100,27 @@ theorem hrun_cfg {h : HState} (hi : HInv h) {ops : List HOp} (hops : ∀ o ∈ o
 theorem cfg_init (m : Option (List Nat)) : cfg (init m) = m := by simp [cfg, init, setStage]
 
 /-- the single-input run is the multi-input run without `resetNew` -/
-theorem hrun_q (inp : EnvInput) (s : EnvState) (ops : List Op) :
-    hrun ⟨inp, s⟩ (ops.map .q) = ⟨inp, run inp s ops⟩ := by
-  induction ops generalizing s with
-  | nil => rfl
-  | cons o ops ih => exact ih _
+theorem hrun_q (inp : EnvInput) (s : EnvState) (d : Nat) (ops : List Op) :
+    (hrun ⟨inp, s, d⟩ (ops.map .q)).inp = inp ∧ (hrun ⟨inp, s, d⟩ (ops.map .q)).s = run inp s ops := by
+  induction ops generalizing s d with
+  | nil => exact ⟨rfl, rfl⟩
+  | cons o ops ih => exact ih _ _
+
+/-- a history without `resetNew` is valid iff each call is valid for the one input -/
+theorem hvalid_q (inp : EnvInput) (ops : List Op) (hops : ∀ o ∈ ops, o.Valid inp.n) :
+    HValid inp (ops.map .q) := by
+  induction ops with
+  | nil => trivial
+  | cons o ops ih =>
+    exact ⟨hops o (List.mem_cons_self ..), ih (fun o' ho' => hops o' (List.mem_cons_of_mem _ ho'))⟩
 
 /-- the invariants along a single-input run -/
 theorem run_hinv (inp : EnvInput) (hp : inp.Pos) (m0 : Option (List Nat)) (ops : List Op)
-    (hops : ∀ o ∈ ops, o.Valid) : HInv ⟨inp, run inp (init m0) ops⟩ := by
-  have := hrun_inv (hinv_init hp m0) (ops := ops.map .q)
-    (by intro o ho; obtain ⟨o', ho', rfl⟩ := List.mem_map.mp ho; exact hops o' ho')
-  rw [hinit, hrun_q] at this
+    (hops : ∀ o ∈ ops, o.Valid inp.n) : HInv ⟨inp, run inp (init m0) ops, 0⟩ := by
+  have := hrun_inv (hinv_init hp m0) (ops := ops.map .q) (hvalid_q inp ops hops)
+  obtain ⟨e1, e2⟩ := hrun_q inp (init m0) 0 ops
+  unfold HInv at this ⊢
+  rw [hinit, e1, e2] at this
   exact this
 
 end Gama.C04
